@@ -224,7 +224,14 @@ impl<'a> AnyCache<'a> {
     pub(crate) fn reload_untyped(self, id: SharedString, typ: Type) -> Option<Dependencies> {
         let handle = self.get_cached_untyped(&id, typ)?;
 
-        let load_asset = || (typ.inner.load)(self, id);
+        // A panic in a loader must not take down the hot-reloading thread
+        // (the caller of `hot_reload` would wait for its answer forever), so
+        // it is handled like any other failed reload.
+        let load_asset = || {
+            let load = std::panic::AssertUnwindSafe(|| (typ.inner.load)(self, id.clone()));
+            std::panic::catch_unwind(load)
+                .unwrap_or_else(|_| Err(Error::new(id, "panicked while reloading".into())))
+        };
         let (entry, deps) = if let Some(reloader) = self.reloader() {
             records::record(reloader, load_asset)
         } else {
